@@ -3,7 +3,7 @@
    `exported tg k t` evaluates the Jinja expression from which target tg's template renders constant k (template scan,
    Generated/Gen_C05.v) with the T2-translated filters; `filter_*`, `get_best_fit` are the translated functions of /repo. *)
 From Coq Require Import List NArith ZArith Bool.
-From Verif Require Import Str Wire WireThm Walker MetaC05Base Gen_C05 MetaC05 WalkerSafe MetaC05Thm MetaC05LitThm MetaC05StoThm MetaC05Float MetaC05FltThm MetaC05TightThm.
+From Verif Require Import Str Wire WireThm Walker MetaC05Base MetaC05Rne Gen_C05 MetaC05 WalkerSafe MetaC05Thm MetaC05LitThm MetaC05StoThm MetaC05Float MetaC05FltThm MetaC05TightThm.
 Import ListNotations.
 Local Open Scope Z_scope.
 
@@ -131,7 +131,7 @@ Proof. exact float_expr_out_of_range_is_oracle. Qed.
 Print Assumptions c05_float_expr_out_of_range_is_oracle.
 
 (* both operands of every rendered division are floating constants within the range of double (no diagnostic, no infinity) *)
-Theorem c05_float_operands_in_range : forall rf n d, 0 < d -> d <> 1 -> division_rendered n d = true ->
+Theorem c05_float_operands_in_range : float_rule = DivIfBelowLimit -> forall rf n d, 0 < d -> d <> 1 -> division_rendered n d = true ->
   const_float_rational rf n d = Some (n, d) /\ float_lit_overflows n d = false /\ operands_in_range (const_float_rational rf n d) = true.
 Proof. exact float_operands_in_range. Qed.
 Print Assumptions c05_float_operands_in_range.
@@ -209,11 +209,23 @@ Print Assumptions c05_cast_formats_pinned.
    c_eval64: N.0 and D.0 are rounded to double by the compiler, then one IEEE division; or the single decimal constant.
    REFUTED: "within one ulp of the correctly rounded rational" does not hold for float64 divisions with inexact operands
    (finding F-FLOAT-OPERAND-ROUNDING, witness evaluates two ulps off; reproduced on the generated C with gcc and clang) *)
-Theorem c05_float64_one_ulp_refuted : exists n d,
+Theorem c05_float64_one_ulp_refuted : float_rule = DivIfBelowLimit -> exists n d,
   0 < d /\ d <> 1 /\ division_rendered n d = true /\
   forall rf, exists x, c_eval64 rf n d = Some x /\ ford binary64 x - ford binary64 (rne binary64 n d) = 2.
 Proof. exact float64_one_ulp_refuted. Qed.
 Print Assumptions c05_float64_one_ulp_refuted.
+
+(* `float_rule` is a FACT REGENERATED from _float_division_expr on every run: DivIfBelowLimit = the code with finding
+   F-FLOAT-OPERAND-ROUNDING (the refutation above is the live statement, the next one is vacuous), DivIfExactOperands = the repaired code
+   (the next theorem is the live obligation, the refutation is vacuous).  The check records which one is live.
+   Repaired code: for EVERY rational constant in double range the exported double is the correctly rounded rational (0 ulp, hence within
+   the property's one ulp); the oracle's certificate is required exactly where the oracle is used *)
+Theorem c05_float64_one_ulp : float_rule = DivIfExactOperands -> forall rf n d, 0 < d ->
+  (d <> 1 -> division_rendered n d = false -> oracle_certified rf n d = true) ->
+  exists x, c_eval64 rf n d = Some x /\ fbits binary64 x = fbits binary64 (rne binary64 n d) /\
+            ford binary64 x - ford binary64 (rne binary64 n d) = 0.
+Proof. exact float64_one_ulp. Qed.
+Print Assumptions c05_float64_one_ulp.
 
 (* the strongest true statements: the exported double is exactly the correctly rounded rational when the constant is integral, ... *)
 Theorem c05_float64_integral_correct : forall rf n, c_eval64 rf n 1 = Some (rne binary64 n 1).
